@@ -15,19 +15,22 @@ import weakref
 from .. import core, pool
 from ..core import Result, Violation
 from ..seqmc import bfs
-from ..seqmc.models import Obj, canon, tree, call
+from ..seqmc.models import Obj, Lossy, canon, tree, call
 
 P = "C12"
-KEYS = {"k0": "present", "k1": "absent", "k2": "later", "k3": "none_present", "k4": "later_none", "k5": "present2"}
+KEYS = {"k0": "present", "k1": "absent", "k2": "later", "k3": "none_present", "k4": "later_none", "k5": "present2", "k6": "later_lossy"}
 H = {k: (k[1] * 64) for k in KEYS}  # 64-char fake signatures
 
 
-def alphabet():
+def alphabet(kind="local"):
     ops = []
     for k in KEYS:
+        if kind == "memory" and k == "k6":
+            continue  # a lossy pickle and a wiped directory only mean something with a file store underneath
         ops.append(("has", k))
         ops.append(("fetch", k))
-    ops += [("store", "k2", "v2"), ("store", "k4", None), ("store", "k0", "v0"),
+    ops += [("store", "k2", "v2"), ("store", "k4", None), ("store", "k0", "v0")] + ([("store", "k6", "lossy"), ("wipe_reopen",)] if kind != "memory" else [])
+    ops += [
             ("sync", "/p", "k0"), ("sync", "/p", "k2"), ("paths", "/p"), ("paths", "/q")]
     return ops
 
@@ -92,8 +95,18 @@ def apply(s, op):
         f = lambda st: st.has_blob(H[op[1]])
     elif kind == "fetch":
         f = lambda st: st.fetch_blob(H[op[1]])
+    elif kind == "wipe_reopen":
+        # the directories are wiped and the very same dds.set_store call is made again: nothing of the old store may be served
+        if s.kind != "local":
+            return []
+        shutil.rmtree(s.root, ignore_errors=True)
+        os.makedirs(s.root)
+        s.bare = _mk_store(s.kind, s.root, "bare", None)
+        s.wrapped = _mk_store(s.kind, s.root, "wrap", s.cap)
+        s.weak = []
+        return []
     elif kind == "store":
-        f = lambda st: st.store_blob(H[op[1]], None if op[2] is None else Obj(op[2]), None)
+        f = lambda st: st.store_blob(H[op[1]], None if op[2] is None else (Lossy("l") if op[2] == "lossy" else Obj(op[2])), None)
     elif kind == "sync":
         from collections import OrderedDict
         f = lambda st: st.sync_paths(OrderedDict([(op[1], H[op[2]])]))
@@ -145,7 +158,7 @@ def _job(items):
     core.ensure_repo_dds()
     time.time = lambda: 1.6e9  # the meta timestamp is the only clock read; own it
     for kind, cap, depth in items:
-        st = bfs.explore(alphabet(), lambda: build(kind, cap), apply, key, depth, teardown=teardown)
+        st = bfs.explore(alphabet(kind), lambda: build(kind, cap), apply, key, depth, teardown=teardown)
         out.append(dict(kind=kind, cap=cap, depth=depth, states=st.states, transitions=st.transitions, closed=st.closed,
                         max_depth=st.max_depth, samples=st.samples[:2],
                         problems=[(list(h), list(o), p) for h, o, p in st.problems]))
